@@ -15,11 +15,14 @@ ID = 'C07'
 PROPS_V = 'C07/Props.v'
 LEVEL = 'proof'
 TRUSTED = [
-    'translate/c07.py: decides from the ast of set_maskbits whether the stored names are upper-cased (Generated/Maskbits.v: load_upper)',
+    'translate/c07.py: reads off the ast of set_maskbits / sdss_flagval / sdss_flagname / sdss_flagexist the eight facts of '
+    'Generated/Maskbits.v (load_upper, scan_bits, ...), the return chain of sdss_flagexist (exist_ret_code) and the table / column '
+    'names set_maskbits reads (src_*); each is a proof obligation in C07/Props.v',
     'hand-written models C07/Model.v of set_maskbits (python dict = insertion-ordered association list), sdss_flagval, '
-    'sdss_flagname, sdss_flagexist -- tied to the code by exact correspondence on every run',
-    'the raw yanny reader: the model starts from the MASKBITS / MASKALIAS rows it returns (the harness checks that they '
-    'are the rows it wrote); parsing is the subject of C01/C02',
+    'sdss_flagname, sdss_flagexist and C07/FileModel.v of the cells set_maskbits reads from the raw yanny object -- tied to the '
+    'code by exact correspondence on every run (answers, error classes, and the loaded dictionary cell by cell)',
+    'the model of the raw yanny reader Yanny/Parse.v (proved and tied in C01/C02): Coq parses the text of every generated file '
+    'itself, and its rows are compared with the rows the real yanny(raw=True) returned',
     'numpy uint64 scalar arithmetic (**, +=, <<, &) and str.upper() on ASCII (exercised, modelled as Z mod 2^64 / byte map)',
     'Coq stdlib ZArith, List, Sorting.Permutation/Sorted, Lia (theorems closed under the global context)',
 ]
@@ -27,8 +30,10 @@ ASSUMPTIONS = [
     'the network download path (maskbits_file=None) is outside the model',
     'names are ASCII identifiers; str.upper() on non-ASCII text is outside the model',
     'the property speaks about well-formed files (bits 0..63, one label per bit and one bit per label within a group '
-    'modulo case, aliases naming an existing group and being new names); ill-formed files are only compared model vs code',
-    'flag values are Python ints or numpy.uint64 in [0, 2^64); other argument types are outside the modelled calling conventions',
+    'modulo case, aliases naming an existing group and being new names); ill-formed files are compared model vs code, and '
+    'their behaviour is pinned by C07_any_file_last_row_wins / C07_single_bit_first_label / C07_two_labels_one_bit_refuted',
+    'flag values are Python ints or numpy.uint64 in [0, 2^64); label arguments are a str or a list of str; other argument '
+    'types are outside the modelled calling conventions',
 ]
 
 STRUCTS = '''typedef struct {
@@ -86,6 +91,30 @@ def respell(rng, s):
     return ''.join(ch.lower() if rng.random() < 0.5 else ch.upper() for ch in s)
 
 
+LONG_MODES = ['short', 'short', 'short', 'edge', 'long']
+
+
+def new_name(rng, mode, kind, existing=()):
+    """a group / alias (kind 'g') or label (kind 'l') name.  mode 'short': 2-9 characters as before; 'edge': lengths
+    around the widths the standard typedef declares (20 for flag / alias, 30 for label); 'long': well beyond them.
+    With some probability the new name shares a long prefix (at least the declared width) with an existing one, so
+    that names cut to a declared width would collide."""
+    if mode == 'short':
+        return ident(rng)
+    w = 20 if kind == 'g' else 30
+    ex = [e for e in existing if len(e) >= w + 1]
+    if ex and rng.random() < 0.3:
+        e = rng.choice(ex)
+        keep = rng.randint(w, len(e))
+        return e[:keep] + ident(rng, 1, 6)
+    t = rng.random()
+    if t < 0.35:
+        return ident(rng)
+    if mode == 'edge':
+        return ident(rng, w - 2, w + 3)
+    return ident(rng, w + 1, w + 14)
+
+
 def near_miss(rng, valid):
     """a string that is NOT a name of the file although it is empty, blank, or made of valid names and white space:
     '', ' ', tab, 'NAME ', ' NAME', 'NAME1 NAME2', 'NA ME', 'NAME,NAME2' ... (random case)"""
@@ -108,14 +137,70 @@ def fresh(rng, used, lo=2, hi=9):
             return s
 
 
+def char_decl(rng, name, std, maxlen, stats):
+    """declaration of a char column; the declared width is drawn independently of the longest value (maxlen):
+    the standard width, exactly fitting, SHORTER than the values, longer, none (`char x[]`), the legacy <w> form,
+    or a plain `char x;`"""
+    form = rng.choices(['std', 'fit', 'short', 'long', 'none', 'angle', 'scalar'], [30, 12, 22, 12, 10, 9, 5])[0]
+    if form == 'short' and maxlen < 2:
+        form = 'fit'
+    w = {'std': std, 'fit': max(1, maxlen), 'short': rng.randint(1, max(1, maxlen - 1)), 'long': maxlen + rng.randint(1, 40),
+         'angle': rng.choice([std, max(1, maxlen), rng.randint(1, max(1, maxlen)), maxlen + 7])}.get(form)
+    rel = 'none' if w is None else ('shorter' if w < maxlen else ('equal' if w == maxlen else 'longer'))
+    stats.append('%s:%s' % (form, rel))
+    if form == 'none':
+        return 'char %s[];' % name
+    if form == 'scalar':
+        return 'char %s;' % name
+    if form == 'angle':
+        return 'char %s<%d>;' % (name, w)
+    return 'char %s[%d];' % (name, w)
+
+
+def gen_decl(rng, frows, faliases, with_alias):
+    """-> (typedef text, row writers): the maskbits / maskalias typedefs with declared widths, integer type, column
+    order, an optional extra column and the case of the struct name drawn at random"""
+    stats = []
+    ml = lambda xs: max([len(x) for x in xs] or [1])
+    extra = rng.random() < 0.25
+    cols = ['flag', 'bit', 'label', 'description'] + (['extra'] if extra else [])
+    if rng.random() < 0.35:
+        rng.shuffle(cols)
+    decl = {'flag': char_decl(rng, 'flag', 20, ml([r[0] for r in frows]), stats),
+            'label': char_decl(rng, 'label', 30, ml([r[2] for r in frows]), stats),
+            'bit': '%s bit;' % rng.choice(['short', 'short', 'int', 'long']),
+            'description': 'char description[%d];' % rng.choice([100, 100, 5, 200]),
+            'extra': '%s extra;' % rng.choice(['int', 'float', 'char'])}
+    name = rng.choice(['maskbits', 'maskbits', 'MASKBITS', 'Maskbits'])
+    text = 'typedef struct {\n' + ''.join('    %s # column %s\n' % (decl[c], c) for c in cols) + '} %s;\n' % name
+    acols = ['flag', 'alias', 'description']
+    if rng.random() < 0.35:
+        rng.shuffle(acols)
+    adecl = {'flag': char_decl(rng, 'flag', 20, ml([a[0] for a in faliases]), stats),
+             'alias': char_decl(rng, 'alias', 20, ml([a[1] for a in faliases]), stats),
+             'description': 'char description[100];'}
+    if with_alias:
+        aname = rng.choice(['maskalias', 'maskalias', 'MASKALIAS', 'MaskAlias'])
+        text += '\ntypedef struct {\n' + ''.join('    %s\n' % adecl[c] for c in acols) + '} %s;\n' % aname
+    return text, cols, acols, stats
+
+
 DEFECTS = ['dup-label', 'dup-bit', 'bit-range', 'alias-unknown', 'alias-shadows-group', 'alias-forward']
 
 
-def gen_structure(rng):
+def gen_structure(rng, mode=None):
     """-> dict(gnames, groups {GROUP: {LABEL: bit}}, aliases [(TARGET, ALIAS)]) -- a well-formed set of definitions"""
     used = set()
     ngroups = rng.randint(1, 6)
+    mode = rng.choice(LONG_MODES) if mode is None else mode
     gnames = []
+
+    def fresh_g():
+        while True:
+            c = new_name(rng, mode, 'g', used)
+            if c not in used:
+                used.add(c)
+                return c
     for _ in range(ngroups):
         if gnames and rng.random() < 0.15:      # a name that extends another one (FOO / FOOBAR)
             cand = rng.choice(gnames) + ident(rng, 1, 3)
@@ -123,22 +208,22 @@ def gen_structure(rng):
                 used.add(cand)
                 gnames.append(cand)
                 continue
-        gnames.append(fresh(rng, used))
-    pool = [ident(rng) for _ in range(rng.randint(3, 12))]
+        gnames.append(fresh_g())
+    pool = [new_name(rng, mode, 'l') for _ in range(rng.randint(3, 12))]
     groups = {}
     for g in gnames:
-        groups[g] = gen_group(rng, pool)
+        groups[g] = gen_group(rng, pool, mode)
     aliases = []
     names = list(gnames)
     for _ in range(rng.choice([0, 0, 1, 1, 2, 3, 4])):
         tgt = rng.choice(names)
-        al = fresh(rng, used)
+        al = fresh_g()
         aliases.append((tgt, al))
         names.append(al)
-    return {'gnames': gnames, 'groups': groups, 'aliases': aliases, 'pool': pool}
+    return {'gnames': gnames, 'groups': groups, 'aliases': aliases, 'pool': pool, 'mode': mode}
 
 
-def gen_group(rng, pool):
+def gen_group(rng, pool, mode='short'):
     t = rng.random()
     if t < 0.15:
         n = 1
@@ -161,7 +246,7 @@ def gen_group(rng, pool):
     d = {}
     for b in sorted(bits):
         while True:
-            lab = rng.choice(pool) if rng.random() < 0.4 else ident(rng)
+            lab = rng.choice(pool) if rng.random() < 0.4 else new_name(rng, mode, 'l', labs)
             if lab not in labs:
                 labs.add(lab)
                 break
@@ -175,6 +260,7 @@ def vary_structure(rng, st):
     gnames = list(st['gnames'])
     groups = {g: dict(d) for g, d in st['groups'].items()}
     pool = st['pool']
+    mode = st.get('mode', 'short')
     old_aliases = list(st['aliases'])
     dropped = []
     for g in list(gnames):
@@ -193,7 +279,7 @@ def vary_structure(rng, st):
             if u < 0.25:                              # renamed, same bit
                 b = d.pop(lab)
                 while True:
-                    new = rng.choice(pool) if rng.random() < 0.3 else ident(rng)
+                    new = rng.choice(pool) if rng.random() < 0.3 else new_name(rng, mode, 'l', d)
                     if new not in d:
                         break
                 d[new] = b
@@ -207,12 +293,12 @@ def vary_structure(rng, st):
             a, b = rng.sample(list(d), 2)
             d[a], d[b] = d[b], d[a]
         if 63 not in d.values() and rng.random() < 0.6:
-            new = ident(rng)
+            new = new_name(rng, mode, 'l', d)
             if new not in d:
                 d[new] = 63
         for _ in range(rng.choice([0, 0, 1, 2, 5])):
             free = [b for b in range(64) if b not in d.values()]
-            new = ident(rng)
+            new = new_name(rng, mode, 'l', d)
             if free and new not in d:
                 d[new] = rng.choice(free)
         # the order of the rows changes too
@@ -223,7 +309,7 @@ def vary_structure(rng, st):
     for _ in range(rng.choice([0, 0, 1])):
         g = fresh(rng, used)
         gnames.append(g)
-        groups[g] = gen_group(rng, pool)
+        groups[g] = gen_group(rng, pool, mode)
     rng.shuffle(gnames)
     # aliases: old alias names are kept, retargeted or dropped; a dropped group may come back as an alias,
     # an old alias may come back as a group of its own
@@ -236,7 +322,7 @@ def vary_structure(rng, st):
             continue
         if t < 0.3 and al not in groups:
             gnames.append(al)
-            groups[al] = gen_group(rng, pool)
+            groups[al] = gen_group(rng, pool, mode)
             names.append(al)
             continue
         if tgt not in names or t < 0.55:
@@ -261,7 +347,7 @@ def vary_structure(rng, st):
         oldg = st['groups'].get(old_alias_of.get(nm, nm))
         if oldg:
             ghost_labels[nm] = list(oldg)
-    return {'gnames': gnames, 'groups': groups, 'aliases': aliases, 'pool': pool,
+    return {'gnames': gnames, 'groups': groups, 'aliases': aliases, 'pool': pool, 'mode': mode,
             'ghost_groups': ghosts, 'ghost_labels': ghost_labels}
 
 
@@ -278,14 +364,14 @@ def check_structure(st):
         names.add(al)
 
 
-def gen_file(rng, style=None, kind=None, st=None):
+def gen_file(rng, style=None, kind=None, st=None, header=None, mode=None):
     """-> dict(text, style, kind, groups {GROUP: {LABEL: bit}}, names [GROUP or ALIAS], rows, aliases)"""
     if style is None:
         style = 'upper' if rng.random() < 0.55 else 'mixed'
     if kind is None:
         kind = 'wf' if rng.random() < 0.82 else rng.choice(DEFECTS)
     if st is None:
-        st = gen_structure(rng)
+        st = gen_structure(rng, mode)
     check_structure(st)
     gnames = list(st['gnames'])
     groups = {g: dict(d) for g, d in st['groups'].items()}
@@ -358,8 +444,12 @@ def gen_file(rng, style=None, kind=None, st=None):
     faliases = [(sp(t), sp(a)) for t, a in aliases]
     # layout
     structs = STRUCTS
-    if not faliases and rng.random() < 0.4:      # no maskalias struct: set_maskbits takes the `'MASKALIAS' in maskfile` exit
+    no_alias_struct = not faliases and rng.random() < 0.4
+    cols, acols, decl_stats = ['flag', 'bit', 'label', 'description'], ['flag', 'alias', 'description'], ['standard-header']
+    if no_alias_struct:      # no maskalias struct: set_maskbits takes the `'MASKALIAS' in maskfile` exit
         structs = STRUCTS[:STRUCTS.index('typedef struct {\n    char flag[20]; # Flag (real) name')]
+    if header == 'varied' or (header is None and rng.random() < 0.5):   # typedefs whose declared widths / types / column order do not follow the standard header
+        structs, cols, acols, decl_stats = gen_decl(rng, frows, faliases, not no_alias_struct)
     lines = ['#', '# generated maskbits file (%s, %s) %s' % (style, kind, note), '#', structs, '#' + '-' * 40]
 
     def pad():
@@ -368,9 +458,15 @@ def gen_file(rng, style=None, kind=None, st=None):
     for g in gnames:
         if rng.random() < 0.7:
             body.append((None, 'masktype %s %d "%s"' % (sp(g), rng.choice([8, 16, 32, 64]), 'type of ' + g)))
+    def kw(w):
+        return rng.choice([w, w, w.upper(), w.capitalize()])
     for i, (g, b, lab) in enumerate(frows):
-        body.append((i, 'maskbits%s%s%s%d%s%s%s"%s"' % (pad(), g, pad(), b, pad(), lab, pad(), 'bit %d of %s' % (b, g.upper()))))
-    arows = ['maskalias%s%s%s%s%s"%s"' % (pad(), t, pad(), a, pad(), '%s is a synonym' % a.upper()) for t, a in faliases]
+        val = {'flag': g, 'bit': '%d' % b, 'label': lab, 'description': '"bit %d of %s"' % (b, g.upper()), 'extra': '%d' % rng.randint(0, 99)}
+        body.append((i, kw('maskbits') + ''.join(pad() + val[c] for c in cols)))
+    arows = []
+    for t, a in faliases:
+        val = {'flag': t, 'alias': a, 'description': '"%s is a synonym"' % a.upper()}
+        arows.append(kw('maskalias') + ''.join(pad() + val[c] for c in acols))
     out = []
     if rng.random() < 0.5:
         out = [l for _, l in body] + arows
@@ -388,6 +484,7 @@ def gen_file(rng, style=None, kind=None, st=None):
         final.append(l)
     text = '\n'.join(lines + final) + '\n'
     return {'text': text, 'style': style, 'kind': kind, 'note': note, 'groups': groups, 'gnames': gnames, 'structure': st,
+            'decl': decl_stats, 'name_mode': st.get('mode', 'short'),
             'names': names, 'alias_of': alias_of, 'rows': [list(r) for r in frows], 'aliases': [list(a) for a in faliases],
             'ghost_groups': list(st.get('ghost_groups', [])), 'ghost_labels': dict(st.get('ghost_labels', {}))}
 
@@ -611,15 +708,23 @@ def cfg_term(cfg):
     """cfg: 'code' (= C07.Code.code_cfg, from Generated/Maskbits.v) or a dict of the eight facts"""
     if cfg == 'code':
         return 'code_cfg'
-    return '(mkcfg %s %d%%nat %s %s %s %s %s %s)' % (
+    return '(mkcfg %s %d%%nat %s %s %s %s %s %s std_ret4)' % (
         C.boollit(cfg['load_upper']), cfg['scan_bits'], C.boollit(cfg['accumulate_is_add']), C.boollit(cfg['acc_dtype_uint64']),
         C.boollit(cfg['lookup_first']), C.boollit(cfg['upper_group']), C.boollit(cfg['upper_labels']), C.boollit(cfg['exist_all']))
 
 
-def case_term(cfg, text, rows, aliases, load, calls, results):
-    loaded = 0 if load.get('ok') else (1 if load.get('err') == 'KeyError' else 2)
+def table_term(tb):
+    """the dictionary set_maskbits returned, in its own order (a list of TG name [(label, bit); ...])"""
+    if not isinstance(tb, list):
+        return '[]'
+    return C.coq_list(['TG %s %s' % (s_num(g), C.coq_list(['(%s, %s)' % (s_num(l), zl(b)) for l, b in ent])) for g, ent in tb])
+
+
+def case_term(cfg, text, rows, aliases, load, table, calls, results):
+    loaded = 0 if load.get('ok') and isinstance(table, list) else (1 if load.get('err') == 'KeyError' else 2)
     ct = C.coq_list([call_res_term(c, r) for c, r in zip(calls, results)])
-    return '(FCase %s %s %s %s %d %s)' % (cfg_term(cfg), coq_string(text), rows_term(rows), aliases_term(aliases), loaded, ct)
+    return '(FCase %s %s %s %s %s %d %s %s)' % (cfg_term(cfg), 'code_names' if cfg == 'code' else 'std_names', coq_string(text),
+                                            rows_term(rows), aliases_term(aliases), loaded, table_term(table), ct)
 
 
 HEADER = '''From Coq Require Import ZArith List Bool String. Import ListNotations.
@@ -681,7 +786,7 @@ def build_and_run(ctx, files, chains, tag='par', fresh=False):
 def file_case(fi, out, cfg):
     calls = [c for _, c in fi['calls']]
     results = out['results'] if out['load'].get('ok') else []
-    return case_term(cfg, fi['text'], out['rows'], out['aliases'], out['load'], calls[:len(results)], results)
+    return case_term(cfg, fi['text'], out['rows'], out['aliases'], out['load'], out.get('table'), calls[:len(results)], results)
 
 
 def correspond(ctx, proof_ok=True):
@@ -699,6 +804,12 @@ def correspond(ctx, proof_ok=True):
         for kind in ['wf'] + DEFECTS:
             chains.append([len(files)])
             files.append(gen_file(rng, style, kind))
+    # long names under the standard header (what a real newer sdssMaskbits.par looks like), and the declared widths /
+    # types / column order varied against short, boundary-length and long names
+    for style, mode, header in (('upper', 'long', 'std'), ('mixed', 'edge', 'std'), ('upper', 'long', 'varied'),
+                                ('mixed', 'edge', 'varied'), ('upper', 'short', 'varied'), ('mixed', 'short', 'varied')):
+        chains.append([len(files)])
+        files.append(gen_file(rng, style, 'wf', header=header, mode=mode))
     # then chains of 1-3 files sharing names: a file, then a newer edition of it (labels renamed, bits moved, bit 63
     # added, groups / aliases dropped, added or exchanged), loaded one after the other in the same process
     # Where the editions live: under ONE path that is rewritten between the loads ('same'), under a path each
@@ -765,6 +876,25 @@ def correspond(ctx, proof_ok=True):
                               {'kind': 'broken-correspondence', 'item': 'caller-owned argument of sdss_%s' % c['k'], 'file_text': files[k]['text'],
                                'call': c, 'before_after': r['mutated_argument']}, False)
                 break
+    # python type / structure of the results (the flat comparison inside Coq does not see them): sdss_flagval returns a
+    # numpy.uint64 scalar; sdss_flagexist returns a bare bool, or a tuple (l[, f][, which]) with `which` a list
+    want_type = 'uint64' if (not info.get('recognised') or info['facts'].get('acc_dtype_uint64')) else 'int64'
+    seen_shape = {}
+    for k in usable:
+        for (tag, c), r in zip(files[k]['calls'], outs[k]['results']):
+            if 'val' in r and r.get('type') != want_type and ('val-type', r.get('type')) not in seen_shape:
+                seen_shape[('val-type', r.get('type'))] = 1
+                ctx.violation('C07:%s:result-type=%s' % (c['k'], r.get('type')), 'sdss_flagval returned a %s, not a numpy.%s scalar (%s)' % (r.get('type'), want_type, tag),
+                              {'kind': 'broken-correspondence', 'item': 'type of the result of sdss_flagval', 'file_text': files[k]['text'], 'call': c, 'impl_result': r}, False)
+            if 'shape' in r:
+                want = {(True, True): 'tuple:bool,bool,list', (True, False): 'tuple:bool,bool', (False, True): 'tuple:bool,list',
+                        (False, False): 'bool'}[(bool(c['fe']), bool(c['we']))]
+                if r['shape'] != want and ('shape', c['fe'], c['we'], r['shape']) not in seen_shape:
+                    seen_shape[('shape', c['fe'], c['we'], r['shape'])] = 1
+                    ctx.violation('C07:exist:result-shape:fe=%d:we=%d:%s' % (c['fe'], c['we'], r['shape']),
+                                  'sdss_flagexist(flagexist=%s, whichexist=%s) returned the structure %s, expected %s' % (c['fe'], c['we'], r['shape'], want),
+                                  {'kind': 'broken-correspondence', 'item': 'structure of the result of sdss_flagexist', 'file_text': files[k]['text'],
+                                   'call': c, 'impl_result': r, 'expected_shape': want}, False)
     # which configuration of the model matches the code?  the translator says (Generated/Maskbits.v -> code_cfg); if
     # it did not recognise the source, the standard model with and without normalisation at load are both tried
     if info.get('recognised'):
@@ -842,7 +972,18 @@ def correspond(ctx, proof_ok=True):
         vs = vs[1:]
         if not vs:
             continue
-        if vs[0] != 0:
+        if vs[0] != 0 and out['load'].get('ok') and isinstance(out.get('table'), list):
+            # the load succeeded on both sides: the DICTIONARY differs (cell by cell) from M's and / or from what S demands
+            mark, extra = hist_mark({'table': alone[k].get('table')} if k in alone else None, {'table': out.get('table')})
+            sig = 'C07:table:file=%s:%s%s' % (fi['style'], 'property' if vs[0] & 2 else 'model', mark)
+            base = dict(base, **extra)
+            rep = dict(base, kind='failing-input' if vs[0] & 2 else 'broken-correspondence', verdict=vs[0], call=None, table_loaded=out.get('table'),
+                       item='C07.Model.load / spec_table_ok', meaning='bit 2: the dictionary set_maskbits returned for this well-formed file is not the one the '
+                       'file defines (spec_table_ok on the rows Coq parsed from the text: a key that is no group / alias of the file, a group whose '
+                       '(LABEL, bit) cells differ, a missing name, or two keys equal modulo case); bit 1: it differs cell by cell from the model M')
+            findings.setdefault(sig, (len(out['rows']), rep, 'set_maskbits: the dictionary loaded from a %s file %s' % (
+                fi['style'], 'is not the one the file defines' if vs[0] & 2 else 'differs from the model'), bool(vs[0] & 2)))
+        elif vs[0] != 0:
             mark, extra = hist_mark(alone[k]['load'] if k in alone else None, out['load'])
             sig = 'C07:load:file=%s:impl=%s:%s%s' % (fi['style'], outcome(out['load']), 'property' if vs[0] & 2 else 'model', mark)
             base = dict(base, **extra)
@@ -918,6 +1059,11 @@ def correspond(ctx, proof_ok=True):
         'files_loaded_after_another_edition': sum(1 for k in usable if pred[k]),
         'files_by_style_kind': {'%s/%s' % (s, kd): sum(1 for k in usable if files[k]['style'] == s and files[k]['kind'] == kd)
                                 for s in ('upper', 'mixed') for kd in ['wf'] + DEFECTS},
+        'files_by_name_mode': {m: sum(1 for k in usable if files[k].get('name_mode') == m) for m in ('short', 'edge', 'long')},
+        'declared_width_forms': decl_dist(files, usable),
+        'longest_group_alias_label': [max([len(r[0]) for k in usable for r in outs[k]['rows']] + [len(a[1]) for k in usable for a in outs[k]['aliases']] + [0]),
+                                      max([len(r[2]) for k in usable for r in outs[k]['rows']] + [0])],
+        'tables_compared_cell_by_cell': sum(1 for k in usable if isinstance(outs[k].get('table'), list)),
         'groups_per_file': {str(n): sum(1 for k in usable if len(files[k]['gnames']) == n) for n in range(1, 7)},
         'rows_per_file_min_med_max': [min(nrows), sorted(nrows)[len(nrows) // 2], max(nrows)] if nrows else [],
         'files_with_bit63': sum(1 for k in usable if any(b == 63 for _, b, _ in outs[k]['rows'])),
@@ -931,6 +1077,14 @@ def correspond(ctx, proof_ok=True):
         'samples': [{'file_text': files[k]['text'][-600:], 'calls': [c for _, c in files[k]['calls'][:4]],
                      'impl': outs[k]['results'][:4]} for k in usable[:2]],
     })
+
+
+def decl_dist(files, usable):
+    d = {}
+    for k in usable:
+        for t in files[k].get('decl', []):
+            d[t] = d.get(t, 0) + 1
+    return d
 
 
 def replay(ctx, rep):
